@@ -46,6 +46,7 @@ FILES = {
     "unique": [["a", "x"], ["b", "y"], ["a", "y"]],
     "sibling": [["b", "x"], ["a", "y"], ["c", "y"]],   # shares keys with the others but is fine on its own
     "single": [["a", "x"]],                            # rejected by the end check of SPEC_LOWER only
+    "empty": [],                                       # a file of zero bytes: no rows, which the end checks judge like any data
     "missing": None,
     "dir": None,
 }
@@ -173,7 +174,7 @@ def gen_inputs(tier, rnd):
             if tier == "quick" and len(files) == 3 and until not in (None, 0, 2):
                 continue
             yield {"cid": "valid", "files": files, "until": until}
-    lower_lists = [list(p) for n in (1, 2) for p in itertools.product(["accepted", "single", "unique", "missing", "dir"], repeat=n)]
+    lower_lists = [list(p) for n in (1, 2) for p in itertools.product(["accepted", "single", "unique", "missing", "dir", "empty"], repeat=n)]
     if tier != "quick":
         lower_lists += [list(p) for p in itertools.product(["accepted", "single", "field", "missing", "dir"], repeat=3)]
     for files in lower_lists:
